@@ -139,6 +139,7 @@ fn elem_type(f: &Field, j: usize) -> String {
     let w = f.value_width();
     match &f.kind {
         Kind::Bool => "bool".into(),
+        Kind::Arb if f.syntax == 6 => format!("arbitrary_int::UInt<u{}, {w}>", storage_bits(w)),
         Kind::Arb => {
             if f.qualified {
                 format!("arbitrary_int::u{w}")
@@ -425,7 +426,11 @@ pub fn layout_module(l: &Layout) -> String {
         o,
         "    fn same(&self, other: &dyn Reg) -> bool {{ match other.as_any().downcast_ref::<G>() {{ Some(o) => self.0 == o.0, None => panic!(\"HARNESS: same() across layouts\") }} }}"
     );
-    let _ = writeln!(o, "    fn as_any(&self) -> &dyn std::any::Any {{ self }}\n}}\n");
+    let _ = writeln!(o, "    fn as_any(&self) -> &dyn std::any::Any {{ self }}");
+    let _ = writeln!(
+        o,
+        "    fn operator(&self, op: u8, other: Option<&dyn Reg>) -> Option<Box<dyn Reg>> {{\n        let me: T = self.0;\n        let rhs: T = match other {{ Some(o) => match o.as_any().downcast_ref::<G>() {{ Some(g) => g.0, None => panic!(\"HARNESS: operator() across layouts\") }}, None => me }};\n        let r: Option<T> = match op {{\n            OP_NOT => (&Probe(me)).try_not(),\n            OP_AND => (&Probe(me)).try_and(rhs),\n            OP_OR => (&Probe(me)).try_or(rhs),\n            OP_XOR => (&Probe(me)).try_xor(rhs),\n            _ => None,\n        }};\n        r.map(|t| Box::new(G(t)) as Box<dyn Reg>)\n    }}\n}}\n"
+    );
 
     let _ = writeln!(o, "pub fn make(raw: u128) -> Box<dyn Reg> {{ Box::new(G(T::new_with_raw_value({}))) }}", uint_in(n, "raw"));
     let _ = writeln!(o, "pub fn special(k: u8) -> Option<Box<dyn Reg>> {{\n    match k {{\n        SPECIAL_ZERO => Some(Box::new(G(T::ZERO))),");
